@@ -12,3 +12,4 @@ from . import signature  # noqa: F401
 from . import specparser  # noqa: F401
 from . import diagram  # noqa: F401
 from . import pickling  # noqa: F401
+from . import declaration  # noqa: F401
